@@ -333,6 +333,10 @@ contract(
     modifies=lambda c: [("G.lfiles",), ("G.l444",), ("HashFileDB.objs", c.self)],
     ensures=_added_only_requested,
     assumed=True,
+    assumes=["bytes at a path do not change during a verified call: ObjectDB.add is described for objects that were ABSENT before the call; "
+             "with check_exists=False (what transfer() passes) the dependency re-copies over an object that is already present, which this "
+             "contract does not describe -- the case 'intact object present, corrupt source, no existence check' is covered by the bounded "
+             "stand-in transfer_faults.py only"],
     doc="ObjectDB.add: places (some of) the requested objects at oid_to_path(oid) via tmp-name + rename, removes nothing, creates "
         "nothing else that parses as an object; what is placed arrives unprotected unless it is a hard link to a write-protected source; "
         "on_error callbacks are not modelled here (they only touch the caller's state)",
